@@ -110,7 +110,7 @@ type svcCtx struct {
 func (g *G) interp(s string, c *svcCtx) *Y {
 	if len(c.vars) > 0 && g.on("interpolation") && g.chance("interp", 1, 4) {
 		v := g.pick("interp-var", c.vars)
-		switch g.n("interp-form", 8) {
+		switch g.n("interp-form", 9) {
 		case 0:
 			return Str("${" + v + "}")
 		case 1:
@@ -125,6 +125,9 @@ func (g *G) interp(s string, c *svcCtx) *Y {
 			return Str(s + "${" + v + ":+-alt}")
 		case 6:
 			return Str(s + "${UNSET_X+-alt}${UNSET_Y:-" + "-dflt}")
+		case 7:
+			// a dollar that is not a substitution: escaped, or simply the last character
+			return Str([]string{"^" + s + "$", s + "$$" + v, "$$" + s, s + " costs 5$"}[g.n("interp-dollar", 4)])
 		default:
 			return Str(s + "-$" + v)
 		}
@@ -1098,6 +1101,9 @@ func (g *G) options(L *Layout) {
 	o.NoStubLoader = g.chance("o-nostub", 1, 4)
 	if g.on("profiles-opt") {
 		o.Profiles = []string{g.pick("o-prof", []string{"dev", "debug", "*"})}
+		if g.chance("o-prof-many", 1, 3) {
+			o.Profiles = []string{"tools", "dev", "debug", "extra"}[:2+g.n("o-prof-n", 3)]
+		}
 	}
 	if g.chance("o-name", 1, 4) {
 		o.ProjectName = "explicit-" + g.word("pn")
